@@ -8,16 +8,17 @@ Every statement is for all byte strings (no length bound) and for EVERY text-to-
 `getaddrinfo` behind `Ip::Address::GetHostByName`), unless it names the reference resolver `IpText.numeric`.
 
 The property has three parts. (1) Incremental: proved in full (`definite_answer_stable`, `prefix_answers_like_full`,
-`prefix_monotone`, `prefix_of_rejected`). (2) Faithful on well-formed headers: proved against a reference encoder for v1
+`prefix_monotone`, `prefix_of_rejected`, `every_segmentation_same_answer`). (2) Faithful on well-formed headers: proved against a reference encoder for v1
 (`v1_tcp_roundtrip`, `v1_unknown_roundtrip`) and v2 (`v2_inet_roundtrip`, `v2_inet6_roundtrip`, `v2_unspec_roundtrip`,
 `v2_local_roundtrip`), with the exact consumed length (`consumed_exactly_the_header`); two classes of well-formed headers
 are NOT parsed faithfully by the real code: `v1_tcp6_mapped_counterexample`, `v2_unix_counterexample`,
 `v2_local_short_block_counterexample`. (3) Malformed headers are rejected: proved for oversized lines, out-of-range ports,
-family mismatches, wrong v2 version/command/family/transport, missing magic; FALSE in general — the counterexamples
+family mismatches, wrong v2 version/command/family/transport, short v2 address blocks, missing magic; FALSE in general — the counterexamples
 `v1_trailing_garbage_counterexample`, `v1_lax_address_counterexample`, `v1_port_leading_zeros_counterexample`,
 `v1_name_lookup_counterexample` are proved, and `v1_accepted_shape_partial` states exactly what acceptance does guarantee.
 -/
 import SquidModel.Proxyp.Shape
+import SquidModel.Proxyp.Short
 import SquidModel.Proxyp.IpText
 
 namespace SquidModel.C38
@@ -71,6 +72,14 @@ theorem prefix_monotone (ipOf : IpOf) (full : Bytes) (h : Header) (n : Nat) (hfu
     have := parse_stable ipOf (List.take n p) (List.drop n p) (by rw [htk]; simp)
     rw [List.take_append_drop] at this
     rw [this, htk]
+
+/-- Every segmentation: however the input is cut into reads (the caller re-parses the accumulated buffer after every
+read until the answer is definite, then consumes `size` octets), the connection leaves the PROXY phase with the answer
+and the left-over bytes that one parse of the whole input gives. -/
+theorem every_segmentation_same_answer (ipOf : IpOf) (segs : List Bytes) :
+    feed ipOf [] segs = attempt ipOf segs.flatten := by
+  have := feed_eq ipOf [] segs
+  simpa using this
 
 /-- The parser has no undefined outcome (the port conversion `Tokenizer::int64` cannot overflow here). -/
 theorem parse_never_undefined (ipOf : IpOf) (buf : Bytes) : parse ipOf buf ≠ .ub :=
@@ -239,6 +248,19 @@ theorem v2_bad_family_or_transport_rejected (ipOf : IpOf) (vc fp : UInt8) (r : B
   · have h4 : fp.toNat &&& 0x0F > tpDgram := by rcases hf with h | h; exact absurd h h3; exact h
     exact ⟨_, by simp only [h3, if_false, h4, if_true, toRes], Or.inr rfl⟩
 
+/-- v2: a header block shorter than the address block of its family (12, 36, 216 octets) is rejected, for both commands
+and whatever follows the header. -/
+theorem v2_short_address_block_rejected (ipOf : IpOf) (cmd fam proto : Nat) (hc : cmd ≤ 1)
+    (hf : fam = afInet ∨ fam = afInet6 ∨ fam = afUnix) (hp : proto = tpStream ∨ proto = tpDgram)
+    (payload rest : Bytes) (hl : payload.length < Two.addrBlockLen fam) :
+    parse ipOf (Two.encV2 cmd fam proto payload ++ rest) = .reject .truncated := by
+  have hp' : proto ≤ 2 ∧ proto ≠ tpUnspecified := by rcases hp with rfl | rfl <;> decide
+  have hf' : fam ≤ 3 := by rcases hf with rfl | rfl | rfl <;> decide
+  have hlen : payload.length < 65536 := by
+    have : Two.addrBlockLen fam ≤ 216 := by rcases hf with rfl | rfl | rfl <;> decide
+    omega
+  rw [Two.parse_encV2 ipOf cmd fam proto payload rest hc hf' hp'.1 hlen, Two.body_short cmd fam proto hf hp'.2 payload hl]
+
 /-- Neither signature: 12 or more octets are rejected, fewer are "need more". -/
 theorem no_magic_rejected (ipOf : IpOf) (buf : Bytes) (h2 : magic2.isPrefixOf buf = false) (h1 : magic1.isPrefixOf buf = false) :
     parse ipOf buf = if magic2.length ≤ buf.length then .reject .badMagic else .more :=
@@ -344,6 +366,12 @@ example :
     parse IpText.numeric (Two.encV2 1 1 1 (Two.block [1,2,3,4] [5,6,7,8] 10 20 ++ Two.encTlvs [⟨1, [104, 50]⟩, ⟨4, []⟩]) ++ [71]) =
       .ok { version := 2, command := 1, src := ⟨[0,0,0,0,0,0,0,0,0,0,255,255,1,2,3,4], 10⟩,
             dst := ⟨[0,0,0,0,0,0,0,0,0,0,255,255,5,6,7,8], 20⟩, tlvs := [⟨1, [104, 50]⟩, ⟨4, []⟩] } 36 := by decide +kernel
+
+/-- the retry loop over three reads (cut inside the signature and inside the address block) -/
+example :
+    feed IpText.numeric [] [[13,10,13,10,0,13,10], [81,85,73,84,10,0x21,0x11,0,12,1,2], [3,4,5,6,7,8,0,10,0,20,71,69,84]] =
+      ⟨.ok { version := 2, command := 1, src := ⟨[0,0,0,0,0,0,0,0,0,0,255,255,1,2,3,4], 10⟩,
+             dst := ⟨[0,0,0,0,0,0,0,0,0,0,255,255,5,6,7,8], 20⟩ } 28, [71,69,84]⟩ := by decide +kernel
 
 /-- rejections and "need more" are reachable -/
 example : parse IpText.numeric (ascii "PROXY TCP4 1.2.3.4 ::1 1 2\r\n") = .reject .v1FamilyMismatch := by decide +kernel
